@@ -744,6 +744,9 @@ class C17(Prop):
         for i, s in enumerate(['no-thread', 'no-process', 'thread-shutdown', 'process-shutdown', 'no-manager']):
             if 3 * i + 2 < n:
                 st[3 * i + 2] = s
+        for i in (0, 4, 9):
+            if i < n and st[i] == 'both':
+                st[i] = 'baton-thread'      # real ThreadPoolExecutor under baton control
         return st
 
     def gen(self, rng):
@@ -785,7 +788,8 @@ class C17(Prop):
                 rec = run_case(c2, sched, set_seed=set_seed)
                 vs = self.judge_state(c2, rec, refs, state)
                 if stats is not None:
-                    stats.add_run(cd, rec, rec.max_pending >= 2 or state != 'both', sd.get('policy', 'fifo'),
+                    stats.add_run(cd, rec, rec.max_pending >= 2 or state not in ('both', 'baton-thread'),
+                                  sd.get('policy', 'fifo'),
                                   spec.get('class'))
                     stats.probe('vector_' + vec)
                 if vs:
@@ -802,7 +806,7 @@ class C17(Prop):
         need_process = 'process' in modes
         missing = ((state in ('no-thread', 'thread-shutdown') and need_thread)
                    or (state in ('no-process', 'process-shutdown', 'no-manager') and need_process))
-        if state != 'both':
+        if state not in ('both', 'baton-thread'):
             if not missing:
                 return []
             vs = []
@@ -826,8 +830,11 @@ class C17(Prop):
         return out
 
     def extra_coverage(self, results):
-        return {'real_pools': 'not used: thread/process pools are simulated (SimLoop.run_in_executor); baton mode with the '
-                              'real pools was designed (DESIGN 3.5) but not built', 'mode_vectors': MODE_VECTORS}
+        return {'real_pools': '3 of 16 worker interpreters register the REAL ThreadPoolExecutor(64) and run thread-mode '
+                              'nodes through the stock executor.submit / wrap_future / call_soon_threadsafe path under baton '
+                              'control (job thread parked until released, loop thread blocked until the job and its completion '
+                              'callback are done; counted as fault kind real_thread_job); the process pool is always simulated '
+                              '(job body at submission + pickle round trip)', 'mode_vectors': MODE_VECTORS}
 
 
 class C18(Prop):
